@@ -825,6 +825,14 @@ class Einsum(EvalableModel):
             for t in evaluated.tensor_accesses:
                 if t.name in persistent_set:
                     t.persistent = True
+            # Keep the named set `Persistent` in sync with the flags just set
+            if not any(r.name == "Persistent" for r in self.renames):
+                evaluated.renames["Persistent"].source = InvertibleSet(
+                    instance=oset(
+                        t.name for t in evaluated.tensor_accesses if t.persistent
+                    ),
+                    **kwargs_tensors,
+                )
 
         return evaluated, symbol_table
 
